@@ -85,19 +85,21 @@ fn base_weights(prop: &str) -> Vec<(Kind, u32)> {
             (SaveReadSave, 1),
         ]),
         "C02" => w.extend([
-            (Clone, 1), (Save, 1), (Load, 1), (Crash, 1), (DrainClone, 2), (Cycle, 2), (NextOnly, 1),
+            (Clone, 1), (Save, 1), (Load, 1), (Crash, 1), (DrainClone, 2), (Cycle, 2), (NextOnly, 1), (Merge, 1),
         ]),
         "C03" => w.extend([
             (Bind, 10), (Clone, 1), (Save, 1), (Load, 1), (Crash, 1), (DrainClone, 2), (Cycle, 1), (Put, 4), (Data, 4),
+            (Merge, 1),
         ]),
         "C04" => w.extend([
             (Add, 14), (Cycle, 4), (Save, 1), (Load, 1), (Crash, 1), (DrainClone, 1), (AddNext, 3), (NextOnly, 1),
+            (Merge, 1),
         ]),
         "C05" => w.extend([
             (AddNext, 10), (NextOnly, 6), (Clone, 3), (CloneLinked, 1), (DropInst, 1), (Merge, 2), (Script, 3),
             (Save, 1), (Load, 1), (Crash, 1), (Cycle, 2), (RejectedMerge, 1),
         ]),
-        "C06" => w.extend([(Cycle, 30), (Save, 1), (Load, 1), (Crash, 1)]),
+        "C06" => w.extend([(Cycle, 30), (Save, 1), (Load, 1), (Crash, 1), (Merge, 1)]),
         "C07" => w.extend([
             (NextOnly, 1), (Clone, 2), (DropInst, 2), (Save, 3), (Load, 3), (Crash, 1), (Slice, 2), (Merge, 1),
             (Script, 1), (Oob, 5), (Damage, 3), (NewInst, 1), (Cycle, 2), (DrainClone, 1), (JoinMerge, 1),
@@ -109,7 +111,7 @@ fn base_weights(prop: &str) -> Vec<(Kind, u32)> {
         "C09" => w.extend([(SaveCut, 4), (Save, 3), (Load, 2), (Crash, 2), (Cycle, 2), (Merge, 1), (Clone, 1), (SaveReadSave, 1)]),
         "C10" => w.extend([
             (Clone, 4), (CloneLinked, 5), (DropInst, 2), (Unlink, 1), (NextOnly, 2), (Merge, 1), (Cycle, 2),
-            (Save, 1), (Load, 1), (DrainClone, 1),
+            (Save, 1), (Load, 1), (DrainClone, 1), (Slice, 2),
         ]),
         "C11" => w.extend([(Merge, 6), (Save, 1), (Load, 1), (Crash, 1), (DrainClone, 1), (RejectedMerge, 1)]),
         "C13" => w.extend([(Slice, 10), (Bind, 8), (Reseed, 1), (Clone, 1), (Cycle, 1), (Put, 0)]),
@@ -138,6 +140,8 @@ enum Mode {
         reads: usize,
         /// the right graph gets an unreachable extra vertex and no data: sodg rejects the merge
         reject: bool,
+        /// the right graph has an earlier generation that was read to death (recycled ids in h)
+        pre_h: bool,
     },
 }
 
@@ -506,7 +510,35 @@ impl Gen {
             }
             Kind::Put => {
                 let v = self.pick_present(m)?;
-                let d = self.data_bytes();
+                let mut d = self.data_bytes();
+                if let (Some(cur), true) = (&m.present[&v].data, self.rng.chance(1, 6)) {
+                    // a datum related to the one the vertex holds: identical, longer or shorter by
+                    // trailing zero bytes, cut, or with one byte changed
+                    d = cur.clone();
+                    match self.rng.below(6) {
+                        0 => {}
+                        1 => d.push(0),
+                        2 => {
+                            while d.last() == Some(&0) {
+                                d.pop();
+                            }
+                        }
+                        3 => {
+                            d.pop();
+                        }
+                        4 => {
+                            if let Some(b) = d.first_mut() {
+                                *b ^= 0x40;
+                            }
+                        }
+                        _ => d.extend_from_slice(&[0, 0, 0]),
+                    }
+                }
+                if self.rng.chance(1, 8) {
+                    // both encodings of the same bytes are legal values of the public enum
+                    let enc = if d.len() <= 8 && self.rng.chance(1, 2) { 2 } else { 1 };
+                    return Some(Step::PutRaw { i, v: view.name(v), d, enc });
+                }
                 Some(Step::Put { i, v: view.name(v), d })
             }
             Kind::Data => {
@@ -642,6 +674,7 @@ impl Gen {
                     restart_after: self.faults_enabled && self.rng.chance(1, 4),
                     reads: self.rng.range(0, 6),
                     reject: self.rng.chance(1, 6),
+                    pre_h: self.rng.chance(1, 3),
                 };
                 Some(Step::Empty { i: free[0] })
             }
@@ -665,7 +698,17 @@ impl Gen {
                 if self.rng.chance(1, 4) {
                     cmds.push(SCmd::Add(SId::X));
                 }
-                Some(Step::Script { i, cmds, style: self.rng.below(256) as u8, var: view.fresh_var() })
+                // the variable's name: plain, or of the form ν<K> with K the id of a present vertex
+                // (the grammar's own example is `$ν1`); the name must not decide the id
+                let name = match self.rng.below(4) {
+                    0 => match self.pick_present(m) {
+                        Some(k) => format!("ν{k}"),
+                        None => String::new(),
+                    },
+                    1 => format!("ν{}", self.rng.below(m.cap)),
+                    _ => String::new(),
+                };
+                Some(Step::Script { i, cmds, style: self.rng.below(256) as u8, var: view.fresh_var(), name })
             }
             Kind::BigGroup => {
                 // a group that grows to 15 or 16 members (the limit) as a chain, holds one or two
@@ -1067,13 +1110,13 @@ impl Gen {
     }
 
     fn merge_ep_step(&mut self, view: &View) -> Option<Step> {
-        let Mode::MergeEp { g, h, phase, grow_g, grow_h, prehistory, restart_before, restart_after, reads, reject } =
+        let Mode::MergeEp { g, h, phase, grow_g, grow_h, prehistory, restart_before, restart_after, reads, reject, pre_h } =
             self.mode.clone()
         else {
             return None;
         };
         let set = |s: &mut Self, phase: u8, grow_g: usize, grow_h: usize, prehistory: bool, reads: usize| {
-            s.mode = Mode::MergeEp { g, h, phase, grow_g, grow_h, prehistory, restart_before, restart_after, reads, reject };
+            s.mode = Mode::MergeEp { g, h, phase, grow_g, grow_h, prehistory, restart_before, restart_after, reads, reject, pre_h };
         };
         let abort = |s: &mut Self| {
             s.mode = Mode::Free;
@@ -1104,6 +1147,11 @@ impl Gen {
                         return None;
                     }
                     set(self, 1, 0, grow_h, false, reads);
+                    if self.rng.chance(1, 3) {
+                        // the right graph has a capacity of its own, larger than the left one's
+                        let cap = view.cfg.cap + self.rng.range(1, 40);
+                        return Some(Step::EmptyCap { i: h, cap: cap.min(300) });
+                    }
                     return Some(Step::Empty { i: h });
                 }
                 set(self, 0, grow_g - 1, grow_h, prehistory, reads);
@@ -1114,6 +1162,21 @@ impl Gen {
                     return abort(self);
                 }
                 let hm = &view.insts[h].as_ref().unwrap().m;
+                if grow_h == 0 && pre_h && hm.present.len() >= 2 && !reject {
+                    // kill this generation of h (it needs a datum to die by), then grow the real one
+                    if hm.unread_ids().is_empty() {
+                        let v = self.pick_present(hm)?;
+                        let mut d = self.data_bytes();
+                        d.truncate(self.rng.range(1, 8));
+                        if d.is_empty() {
+                            d = vec![0x5A];
+                        }
+                        return Some(Step::Put { i: h, v: view.name(v), d });
+                    }
+                    let n = self.rng.range(1, 5);
+                    self.mode = Mode::MergeEp { g, h, phase: 1, grow_g: 0, grow_h: n, prehistory: false, restart_before, restart_after, reads, reject, pre_h: false };
+                    return Some(Step::Drain { i: h, on_clone: false, order: self.rng.next_u64() });
+                }
                 if grow_h == 0 && !hm.present.is_empty() {
                     set(self, if restart_before { 2 } else { 3 }, 0, 0, false, reads);
                     return None;
